@@ -29,6 +29,16 @@ def variant_calls(variant, bs, obs):
     if variant == "histogram":
         calls = [{"op": "histogram", "as": "h", "opts": opts}]
         calls += [{"op": "observe", "obj": "h", "v": F(x)} for x in obs]
+    elif variant == "scraped":
+        # the histogram is collected after every observation (a scrape between any two observations changes nothing)
+        calls = [{"op": "histogram", "as": "h", "opts": opts}]
+        for x in obs:
+            calls += [{"op": "observe", "obj": "h", "v": F(x)}, {"op": "metric", "obj": "h"}]
+    elif variant == "local_batches":
+        # one local histogram flushed after every observation (every flush hands over exactly its own batch)
+        calls = [{"op": "histogram", "as": "h", "opts": opts}, {"op": "local", "of": "h", "as": "L"}]
+        for x in obs:
+            calls += [{"op": "lobserve", "obj": "L", "v": F(x)}, {"op": "lflush", "obj": "L"}]
     elif variant == "vec_child":
         calls = [{"op": "histogram_vec", "as": "v", "opts": opts, "labels": ["l"]}, {"op": "with", "vec": "v", "vals": ["x"], "as": "h"}]
         calls += [{"op": "observe", "obj": "h", "v": F(x)} for x in obs]
@@ -61,7 +71,7 @@ def run(ctx):
         if c["mode"] == "accept":
             variants, scales = ["histogram", "vec_child"], SCALES
         else:
-            variants = ["histogram", "vec_child", "local", "mixed"]
+            variants = ["histogram", "vec_child", "local", "mixed", "scraped", "local_batches"]
             scales = SCALES if not quick else [SCALES[(ci + k) % 4] for k in range(2)]
         for sc in scales:
             bs = [conc(x, sc) for x in c["bs"]]
@@ -133,7 +143,7 @@ def random_f64_traces(ctx, exe):
         if nb > 5:
             mid = [b for b in rnd.sample(bs, min(6, len(bs))) if b == b and abs(b) != math.inf]
             obs += mid + [math.nextafter(b, math.inf) for b in mid[:3]] + [float("nan")]
-        variant = ["histogram", "vec_child", "local", "mixed"][i % 4]
+        variant = ["histogram", "vec_child", "local", "mixed", "scraped", "local_batches"][i % 6]
         jobs.append({"id": i, "calls": variant_calls(variant, bs, obs)})
         raw.append((bs, obs, variant))
     res = run_api(ctx, exe, jobs, "rf64", nproc=12)
@@ -168,7 +178,7 @@ def random_f64_traces(ctx, exe):
             rec["cum"] = [b[1] for b in h["b"]]
             rec["count"] = h["count"]
             # arithmetic clause, recomputed outside the specification: sum in observation order (direct path only)
-            if variant in ("histogram", "vec_child"):
+            if variant in ("histogram", "vec_child", "scraped"):
                 acc = 0.0
                 for x in obs:
                     acc += x
